@@ -20,6 +20,19 @@ def _mutate(name):
     from chameleon import compiler as cc
     import inspect
     import textwrap
+    if name == 'macros_memoised':
+        # the wrapper of a macro is remembered per template and name, and survives a re-cook
+        from chameleon.zpt import template as zt
+        orig = zt.Macros.__getitem__
+        memo = {}
+
+        def __getitem__(self, n):
+            key = (id(self.template), n)
+            if key not in memo:
+                memo[key] = orig(self, n)
+            return memo[key]
+        zt.Macros.__getitem__ = __getitem__
+        return
     src_fn = cc.Compiler.visit_UseExternalMacro
     code = textwrap.dedent(inspect.getsource(src_fn))
     if name == 'filler_uses_macro_target':
@@ -59,6 +72,8 @@ def _mutate(name):
 def prepare(cfg):
     if cfg.get('mutant'):
         _mutate(cfg['mutant'])
+    if 'caller' not in cfg:
+        return
     kw = {}
     if cfg.get('i18n'):
         kw['translate'] = revealing_translate
@@ -152,7 +167,86 @@ def H(i0: int, i1: int, i2: int, i3: int, b0: bool, b1: bool, b2: bool, b3: bool
 
 
 def explain(cfg, *args):
+    if 'caller' not in cfg:
+        return {'args': list(args)}
     b = bind(args[:4], args[4:])
     return {'with_metal': STATE['a_text'], 'inlined': STATE['b_text'],
             'bindings': {k: repr(v)[:60] for k, v in b.items()},
             'rendered_with_metal': run(STATE['a'], b), 'rendered_inlined': run(STATE['b'], b)}
+
+
+# ---- a macro library that changes: every use renders what the macro's *current* defining element renders --------
+LIB_VERSIONS = [
+    '<html><p metal:define-macro="m">one <i metal:define-slot="s">d1</i></p><q metal:define-macro="n">n1</q></html>',
+    '<html><q metal:define-macro="n">n2</q><div metal:define-macro="m" class="two"><b metal:define-slot="s">d2</b> two</div></html>',
+    '<html><p metal:define-macro="m">three</p></html>',
+]
+CALLERS = [
+    '<x><u metal:use-macro="lib.macros[\'m\']"><s metal:fill-slot="s">F</s></u></x>',
+    '<x><u metal:use-macro="lib[\'m\']"/></x>',
+    '<x><u metal:use-macro="lib"/></x>',
+]
+
+
+def rewritten(w0: bool, t0: int, w1: bool, t1: int, w2: bool, t2: int) -> bool:
+    """
+    pre: 0 <= t0 < 5 and 0 <= t1 < 5 and 0 <= t2 < 5
+    pre: CFG.get('n', 3) >= 3 or (t2 == 0 and not w2)
+    post: _
+    """
+    # history of n <= 3 steps (library kind and form of use fixed per job); each step optionally installs the next version of the library (write() for a string
+    # template, a modified file for an auto-reloading file template), then touches it in one of five ways, then
+    # the caller is rendered and compared with a caller rendered against a fresh template of that version
+    import os
+    import shutil
+    import tempfile
+    from chameleon import PageTemplateFile
+    from vlib.notrace import NoTracing
+    file_based = bool(CFG.get('file'))
+    steps = [(True if w else False, [k for k in range(5) if t == k][0]) for w, t in ((w0, t0), (w1, t1), (w2, t2))]
+    steps = steps[:CFG.get('n', 3)]
+    ci = CFG.get('use', 0)
+    ok = True
+    with NoTracing():
+        d = tempfile.mkdtemp(prefix='verif-c09-')
+        try:
+            path = os.path.join(d, 'lib.pt')
+            version = 0
+            stamp = 1000000000
+
+            def store(v):
+                with open(path, 'w') as f:
+                    f.write(LIB_VERSIONS[v])
+                os.utime(path, (stamp + v * 10, stamp + v * 10))
+            if file_based:
+                store(0)
+                lib = PageTemplateFile(path, auto_reload=True)
+            else:
+                lib = PageTemplate(LIB_VERSIONS[0])
+            caller = PageTemplate(CALLERS[ci])
+            caller.render(lib=lib)
+            lib.macros['m']
+            for write, touch in steps:
+                if write and version < 2:
+                    version += 1
+                    if file_based:
+                        store(version)
+                    else:
+                        lib.write(LIB_VERSIONS[version])
+                if touch == 0:
+                    lib.macros['m']
+                elif touch == 1:
+                    lib.render()
+                elif touch == 2:
+                    lib.macros.names
+                elif touch == 3:
+                    PageTemplate(CALLERS[2]).render(lib=lib)
+                got = caller.render(lib=lib)
+                want = caller.render(lib=PageTemplate(LIB_VERSIONS[version]))
+                if got != want:
+                    ok = False
+        except Exception:
+            ok = False
+        finally:
+            shutil.rmtree(d, True)
+    return (not ok) if CFG.get('negate') else ok
